@@ -488,6 +488,7 @@ type Writer struct {
 	Calls    []Call
 	CurDL    time.Time // deadline last given to SetWriteDeadline
 	pending  Call
+	OnCall      func(Call) // invoked right after every API call returns
 	pendingOpen bool // a NextWriter step is between its parts (the writer is open but not yet registered)
 }
 
@@ -506,6 +507,9 @@ func (w *Writer) end(err error) {
 		w.pending.BytesAfter = w.NC.WrittenLen()
 	}
 	w.Calls = append(w.Calls, w.pending)
+	if w.OnCall != nil {
+		w.OnCall(w.pending)
+	}
 }
 
 func NewWriter(c *ws.Conn, cfg Cfg) *Writer {
